@@ -92,19 +92,30 @@ func (c *Ctx) acceptRegion(fn *ssa.Function, row cfgRow) (region, int, string) {
 		if pk == nil || !strings.HasSuffix(pk.Pkg.Path(), "/internal/config") {
 			return false
 		}
-		return callee.Signature.Recv() == nil // helpers such as validatePort(label, port); never another validator method
+		// helpers such as validatePort(label, port) and methods of the section types; never another
+		// validator method of *Config
+		if rc := callee.Signature.Recv(); rc != nil && QualType(namedOf(rc.Type())) == "config.Config" {
+			return false
+		}
+		return true
 	}}
 	ts := sp.Walk(fn)
 	c.Count("paths_enumerated", len(ts))
 	var parts []region // union of the per-path regions
 	n := 0
+	perElement := strings.Contains(row.X, "BackendConfig.") // tested per loop iteration; the empty pool is refused separately
+	skipped := ""
 	for _, t := range ts {
 		if len(t.Ret) != 1 || t.Ret[0].K != ANil {
 			continue
 		}
 		if row.Guard != "" {
 			g, _, ok := c.findRel(t, cfgP+row.Guard, "", 0, -1)
-			if !ok || g.Lo != 1 {
+			if !ok {
+				skipped = "an accepting path never examines " + row.Guard + " (the section is skipped for some combination of the other sections): " + firstN(t.String(), 200)
+				continue
+			}
+			if g.Lo != 1 {
 				continue
 			}
 		}
@@ -154,10 +165,16 @@ func (c *Ctx) acceptRegion(fn *ssa.Function, row cfgRow) (region, int, string) {
 			}
 		}
 		if !seen {
+			if !perElement && row.Also == "" {
+				skipped = "an accepting path with the constraint in force never examines " + strings.TrimPrefix(row.X, cfgP) + ": " + firstN(t.String(), 200)
+			}
 			continue
 		}
 		n++
 		parts = append(parts, cur)
+	}
+	if skipped != "" {
+		return region{}, n, skipped
 	}
 	if len(parts) == 0 {
 		return region{}, 0, "no accepting path tests this field (the constraint is not enforced)"
